@@ -121,7 +121,7 @@ class Factory:
         if isinstance(json, basestring):
             json = jsonlib.loads(json)
 
-        if isinstance(json, dict) and "type" in json and "data" in json and "version" in json:
+        if isinstance(json, dict) and set(json.keys()) == {"type", "data", "version"}:
             if isinstance(json["version"], basestring):
                 if not histogrammar.version.compatible(json["version"]):
                     raise ContainerException(
